@@ -4,7 +4,8 @@
 // bound: one document, two replicas (alice writes, bob receives), three subscribers on bob of which the middle one is dropped without
 // unsubscribing and another is unsubscribed later; 6 entries on the direct remote-insert path (2 superseded, 1 malformed) and a
 // reconciliation session carrying 4 entries (1 superseded by a local write, 1 malformed). Every live subscriber must see exactly one
-// RemoteInsert per applied entry, in application order, and nothing for rejected entries.
+// RemoteInsert per applied entry, in application order, and nothing for rejected entries. Second part: a slow subscriber (capacity-1 channel)
+// next to a fast one: both see all five applied entries in order, none is dropped for back-pressure.
 #[cfg(test)]
 mod verif_rp_c12_events {
     use super::*;
@@ -76,5 +77,45 @@ mod verif_rp_c12_events {
         assert_eq!(got3, want, "WITNESS subscriber 3 events after the reconciliation session (malformed and superseded entries must not be announced)");
         assert_eq!(drain(&rx1), vec![], "WITNESS unsubscribed subscriber 1 still receives events");
         assert_eq!(bob.info.subscribers_count(), 1, "WITNESS subscriber bookkeeping: expected only subscriber 3 to remain");
+    }
+
+    /// A slow subscriber (capacity-1 channel, reading with a delay) and a fast one: both see every applied entry exactly once, in order;
+    /// the slow one is not silently unsubscribed because its channel was momentarily full.
+    #[tokio::test]
+    async fn a_slow_subscriber_loses_nothing() {
+        let mut rng = rand::rng();
+        let a = Author::new(&mut rng);
+        let ns = NamespaceSecret::new(&mut rng);
+        let base = system_time_now() - 1_000_000;
+        let h = Hash::new(b"x");
+        let mut store = Store::memory();
+        let mut bob = store.new_replica(ns.clone()).unwrap();
+        let (slow_tx, slow_rx) = async_channel::bounded(1);
+        let (fast_tx, fast_rx) = async_channel::bounded(64);
+        bob.info.subscribe(slow_tx);
+        bob.info.subscribe(fast_tx);
+        let reader = tokio::task::spawn(async move {
+            let mut seen = vec![];
+            while let Ok(ev) = slow_rx.recv().await {
+                if let Event::RemoteInsert { entry, .. } = ev { seen.push(entry.key().to_vec()); }
+                tokio::time::sleep(std::time::Duration::from_millis(5)).await;
+                if seen.len() == 5 { break; }
+            }
+            seen
+        });
+        let mut want = vec![];
+        for i in 0..5u64 {
+            let key = format!("k{i}").into_bytes();
+            let e = SignedEntry::from_parts(&ns, &a, &key, Record { hash: h, len: 1, timestamp: base + i });
+            let res = tokio::time::timeout(std::time::Duration::from_secs(5), bob.insert_remote_entry(e, [7u8; 32], ContentStatus::Missing)).await;
+            assert!(matches!(res, Ok(Ok(_))), "WITNESS remote insert {i} with a slow subscriber: {res:?}");
+            want.push(key);
+        }
+        let seen = tokio::time::timeout(std::time::Duration::from_secs(5), reader).await.expect("WITNESS the slow subscriber never received all events").unwrap();
+        assert_eq!(seen, want, "WITNESS the slow subscriber (capacity-1 channel) saw {seen:?}, applied were {want:?}");
+        let mut fast = vec![];
+        while let Ok(ev) = fast_rx.try_recv() { if let Event::RemoteInsert { entry, .. } = ev { fast.push(entry.key().to_vec()); } }
+        assert_eq!(fast, want, "WITNESS the fast subscriber saw {fast:?}");
+        assert_eq!(bob.info.subscribers_count(), 2, "WITNESS a subscriber was dropped because its channel was full");
     }
 }
